@@ -39,6 +39,7 @@ pub const WIDTH_TEMPLATES: &[&str] = &[
     "from t | filter NAME > @2020-01-01T12:00:00+01:00 && b < 2days && c == 0x1f",
     "from [{NAME = 1, b = 2.5}, {NAME = 3, b = null}] | append (from t | select {NAME, b})",
     "from t | derive {y = -(NAME ** 2), z = 1 - -(2 ** NAME), w = !(NAME == 1), v = (-NAME) ** 2, u = -(NAME + 1) ** 2, q = -(-NAME), p = +(NAME ** 2)} | sort {-(NAME ** 2), +(NAME * 2)}",
+    "from t | filter s\"{NAME} ~ '^\\\\d+$'\" | derive {p = f\"C:\\\\dir\\\\{NAME}\\\\n\", q = s\"{NAME} LIKE '%\\\\_%' ESCAPE '\\\\'\", r = f\"{{{NAME}}} \\\"quoted\\\" \\t tab\", u = s\"JSON_VALUE({NAME}, '$.a')\"}",
     "from t | derive {y = (NAME ?? 1) ?? 2, z = NAME ?? (1 ?? 2), w = (NAME - 1) - 2, v = NAME - (1 - 2), u = (NAME ** 2) ** 3, s = NAME ** (2 ** 3), r = (NAME / 2) * 3, q = NAME / (2 * 3), p = !(!f)} | filter (NAME > 1) == (b > 2) && !(NAME == null || b != null)",
 ];
 
